@@ -88,10 +88,10 @@ Definition spec_line (l : list byte) : option (list byte) * list byte :=
 (** all lines: split at LF, one CR before the LF stripped, no line after a final LF *)
 Fixpoint split_lines (cur : list byte) (l : list byte) : list (list byte) :=
   match l with
-  | [] => match cur with [] => [] | _ :: _ => [rev cur] end
+  | [] => match cur with [] => [] | _ :: _ => [rev' cur] end
   | c :: r =>
       if c =? 10 then
-        rev (match cur with c' :: cur' => if c' =? 13 then cur' else cur | [] => cur end)
+        rev' (match cur with c' :: cur' => if c' =? 13 then cur' else cur | [] => cur end)
           :: split_lines [] r
       else split_lines (c :: cur) r
   end.
